@@ -5,3 +5,4 @@ pub mod refleap;
 pub mod reftext;
 pub mod reffmt;
 pub mod reftz;
+pub mod zonegen;
